@@ -27,6 +27,16 @@ fn ch(v: u32) -> Channel { Channel::try_from(v).unwrap() }
 pub fn oracle_eval(name: &str, detail: &str) -> Option<bool> {
     let m = params(detail);
     match name {
+        #[cfg(feature = "with_serde")]
+        "c04-deserialized-pn-encodes-in-range" => {
+            let g = |k: &str| m.get(k).cloned();
+            Some(crate::serde_probe::deserialized_pn_in_range(&g("c")?, &g("n")?, &g("v")?, &g("r")?, &g("b")?, &g("d")?).unwrap_or(true))
+        }
+        #[cfg(feature = "with_serde")]
+        "c04-deserialized-cc14-encodes-in-range" => {
+            let g = |k: &str| m.get(k).cloned();
+            Some(crate::serde_probe::deserialized_cc14_in_range(&g("c")?, &g("m")?, &g("v")?).unwrap_or(true))
+        }
         "cc-roundtrip" => {
             let (c, msb, value): (u32, u32, u32) = (num(&m, "ch")?, num(&m, "msb")?, num(&m, "value")?);
             let mut sc = ControlChange14BitMessageScanner::new();
